@@ -26,7 +26,7 @@ def strategy(draw):
     else:
         prof = Profile(vrl=[256, 8192], max_frames=2, max_channels=4, max_rows=16, max_width=5, casts=True,
                        layouts=('C', 'F', 'strided', 'ro'), units=False, sources=('struct',), chunks=True, windows=True,
-                       upper_names=True)
+                       upper_names=True, fractional_index=True)
     spec = draw(file_specs(prof))
     spec['write'].pop('source', None)
     spec['write'].pop('ocs', None)
@@ -107,6 +107,15 @@ class C11(Property):
             labels.append('from>0')
         if opts.get('perm'):
             labels.append('permuted')
+        ops0 = spec['lfs'][0]['ops']
+        for op in ops0:
+            if op['t'] == 'frame' and 'index_type' in op['attrs']:
+                c = ops0[op['attrs']['channels']['v'][0]['$ref']]
+                if c.get('cast') and c.get('data') is not None:
+                    a = model.logical_array(c['data'])
+                    if not np.array_equal(a.astype(B.cast_dtype_of(c['cast'])).astype(a.dtype), a):
+                        labels.append('index-channel-cast-lossy')
+                        break
         if opts.get('extra'):
             labels.append('extra-datasets')
         # reference: pre-sliced arrays, inline, no window
